@@ -21,8 +21,8 @@ def split_out(line):
     if not m:
         return None, line, {}
     out = m.group(2)
-    attrs = dict(re.findall(r" (where|after|from)=(\S+)", out))
-    core_out = re.sub(r" (where|after|from)=\S+", "", out)
+    attrs = dict(re.findall(r" (where|after|from|chk0)=(\S+)", out))
+    core_out = re.sub(r" (where|after|from|chk0)=\S+", "", out)
     return m.group(1), core_out, attrs
 
 
@@ -37,6 +37,9 @@ def judge(variant, src, core_out, attrs, actions=()):
     """the property, evaluated directly on what the verifier/application got. None = fine"""
     if attrs.get("from") in ("OTHER", "outside") and set(actions) <= STATIC_ACTIONS:
         return "the bytes handed to the verifier are not those of the extent that was range-checked (copied from an address fetched at another moment)"
+    if variant == "buf" and core_out.startswith("addr=") and "chk0" in attrs and core_out != "addr=null":
+        if attrs["chk0"] != core_out[5:]:
+            return f"the buffer address handed to the verifier ({core_out[5:]}) is not the start of the extent that was range-checked ({attrs['chk0']})"
     if attrs.get("where", "app") != "app":
         return "the object handed to the verifier lies in sandbox memory"
     if attrs.get("after", "same") != "same":
